@@ -392,20 +392,22 @@ def gen_handles(out_path):
         nodes = method_nodes(docs, None, "correctValue")
         if not nodes: raise Unsupported("%s::correctValue not found" % cls)
         defs.append(translate_function(nodes[0], g + "_correctValue", {"thld_": "thld"}, mutator=True))
-    with open(out_path, "w") as f:
-        f.write("(* Gen/Handles.v -- GENERATED by translate/leafs.py from src/OpenVolumeMesh/Core/Handles.hh and\n"
-                "   TopologyKernel.hh of the current /repo working tree.  Do not edit. *)\n"
-                "From OVM Require Import Base.Int32.\nLocal Open Scope Z_scope.\n\n")
-        f.write("\n\n".join(defs) + "\n")
-    return len(defs)
+    text = ("(* Gen/Handles.v -- GENERATED by translate/leafs.py from src/OpenVolumeMesh/Core/Handles.hh and\n"
+            "   TopologyKernel.hh of the current /repo working tree.  Do not edit. *)\n"
+            "From OVM Require Import Base.Int32.\nLocal Open Scope Z_scope.\n\n" + "\n\n".join(defs) + "\n")
+    if out_path:
+        with open(out_path, "w") as f: f.write(text)
+    return text
+
+OUTPUTS = {"handles": "Handles.v"}
 
 if __name__ == "__main__":
     which = sys.argv[1]
     out = sys.argv[2]
     try:
-        if which == "handles": n = gen_handles(out)
+        if which in OUTPUTS: globals()["gen_" + which](out)
         else: raise SystemExit("unknown leaf set " + which)
-        print("translated %d leaves -> %s" % (n, out))
+        print("translated leaves -> %s" % out)
     except Unsupported as e:
         print("TRANSLATION-REJECTED: %s" % e)
         sys.exit(3)
